@@ -10,7 +10,7 @@ from .common import *  # noqa
 from .externals import TOKENIZER
 import pyvc.natives_sort  # noqa
 from .token_ordering import Q as TQ, ORD, ord_injective, ord_positive, all_ranked
-from .prefix import filter_obj, plen_of, SETM
+from .prefix import filter_obj, plen_of, SETM, thr_ok, imul_facts
 from .prefix_tables import pshare, pshare_axiom, pshare_def
 from .theorems import arithmetic_axioms, required_sym, range_axioms
 from pyvc import natives as N
@@ -101,11 +101,13 @@ def _filter_pair(M):
 
         def requires(self, c):
             t = c.f(c.p('self'), 'threshold')
-            return [('threshold-valid', z3.And(t > 0, t <= 1)), ('token-count-domain', S.toks_bounded())]
+            q = c.f(c.field(c.p('self'), 'tokenizer'), 'qval')
+            return [('threshold-valid', thr_ok(M, t, q)), ('token-count-domain', S.toks_bounded())]
 
         def setup(self, c):
             t = c.f(c.p('self'), 'threshold')
-            return S.toks_axioms() + arithmetic_axioms(M, t) + range_axioms(M, t)
+            q = c.f(c.field(c.p('self'), 'tokenizer'), 'qval')
+            return S.toks_axioms() + arithmetic_axioms(M, t) + range_axioms(M, t) + imul_facts(M, q, t)
 
         def ghost(self, c):
             return {'ordering': fresh(ORD, 'no_ordering')}
@@ -130,7 +132,12 @@ def _filter_pair(M):
             share = pshare_def(M, o, Tl, Tr, t, q)
             fs = [('exact', z3.Implies(z3.And(z3.Not(missing), z3.Not(both_empty)), res.t == z3.Not(share))),
                   ('missing', z3.Implies(missing, res.t == z3.Not(c.f(f, 'allow_missing')))),
-                  ('both-empty', z3.Implies(z3.And(z3.Not(missing), both_empty), res.t == z3.Not(c.f(f, 'allow_empty'))))]
+                  ('both-empty', z3.Implies(z3.And(z3.Not(missing), both_empty),
+                                            res.t == (z3.Not(c.f(f, 'allow_empty')) if M in SETM else z3.BoolVal(False))))]
+            if M not in SETM:
+                # EDIT_DISTANCE mode (q-gram bags, integer threshold): the exact characterisation and the missing /
+                # empty handling are proved; the C04 / C14 forms need the q-gram lemma and stay with the bounded stand-in
+                return fs
             if c.proving:
                 # PP / PC (Lean: prefix_principle, shared_element_inter_pos), for this pair under the pair-level order
                 def pl(n):
@@ -150,4 +157,4 @@ def _filter_pair(M):
     return FilterPair()
 
 
-register(QF + 'filter_pair', [_filter_pair(M) for M in SETM], props=('C04', 'C06', 'C08', 'C09', 'C14'))
+register(QF + 'filter_pair', [_filter_pair(M) for M in SETM + ('EDIT_DISTANCE',)], props=('C04', 'C06', 'C08', 'C09', 'C14'))
